@@ -10,6 +10,7 @@ package main
 import (
 	"encoding/json"
 	"fmt"
+	"lunar/engine/streams"
 	"os"
 	"strings"
 	"sync"
@@ -22,11 +23,11 @@ import (
 )
 
 type quotaSpec struct {
-	Max       int64 `json:"max"`
-	ExpireS   int64 `json:"expire_s"`
-	GCS       int64 `json:"gc_s"`
-	ParentMax int64 `json:"parent_max,omitempty"` // 0 = no parent
-	LimiterOn string `json:"limiter_on"`          // qc | qp
+	Max       int64  `json:"max"`
+	ExpireS   int64  `json:"expire_s"`
+	GCS       int64  `json:"gc_s"`
+	ParentMax int64  `json:"parent_max,omitempty"` // 0 = no parent
+	LimiterOn string `json:"limiter_on"`           // qc | qp
 	// a second limiter on an unrelated fixed-window quota sits behind the concurrency limiter
 	SecondLimiter bool `json:"second_limiter,omitempty"`
 }
@@ -192,7 +193,12 @@ type world struct {
 	held  map[string]*member // admitted, not ended
 	nProb int
 	dead  bool
+	// GC loops of engines that were built on the same configuration and thrown away (dry run / failed
+	// reload): they tick on the same clock with the same period
+	extraLoops int
 }
+
+func (w *world) loops() int { return w.q.loops() + w.extraLoops }
 
 func (w *world) rp(note string) replay {
 	return replay{Case: w.idx, Seed: w.seed, Quota: w.q, Ops: w.ops, Note: note}
@@ -212,7 +218,7 @@ func (w *world) certain() int {
 func (w *world) possible() int {
 	n := 0
 	for _, m := range w.held {
-		if m.ticksAfter < 3*w.q.loops() {
+		if m.ticksAfter < 3*w.loops() {
 			n++
 		}
 	}
@@ -330,9 +336,15 @@ func (w *world) advance(d time.Duration) bool {
 		before := w.clk.Armed(p.D)
 		w.clk.Fire(p.ID)
 		if p.D == gcD {
-			if !w.clk.WaitArmed(p.D, before+1, 20*time.Second) {
-				w.v.Inconclude(fmt.Sprintf("case %d: GC loop did not re-arm within the watchdog", w.idx))
-				return false
+			wait := 3 * time.Second
+			if w.v.Counters["gc_loop_did_not_rearm_after_its_timer_fired"] >= 5 {
+				wait = 50 * time.Millisecond // it keeps happening in this process: do not spend the run waiting
+			}
+			if !w.clk.WaitArmed(p.D, before+1, wait) {
+				// this collector did not arm its next wait: slow or gone. Nothing is concluded from it and
+				// its tick is not counted (fewer counted ticks only make the oracle claim less)
+				w.v.Count("gc_loop_did_not_rearm_after_its_timer_fired", 1)
+				continue
 			}
 			w.v.Count("gc_ticks", 1)
 			now := w.clk.Now()
@@ -386,6 +398,10 @@ func main() {
 		} else {
 			runStampede(i, args, r, q, v, root)
 		}
+	}
+	flo, fhi := args.Share(args.Pick(96, 1200))
+	for i := flo; i < fhi; i++ {
+		runFresh(1_000_000+i, args, args.CaseRand(1_000_000+i), v, root)
 	}
 	for _, k := range []string{"refused_at_capacity", "released:resp", "released:early", "released:err", "released:expiry"} {
 		if v.Counters[k] == 0 {
@@ -456,6 +472,8 @@ func genOps(r *sim.Rand, q quotaSpec, n int) []op {
 		case k < 18:
 			dts := []int64{100, 500, 1000, q.ExpireS*1000 - 1, q.ExpireS * 1000, q.ExpireS*1000 + 11, (q.ExpireS + 3*q.GCS + 1) * 1000, (q.ExpireS + 7*q.GCS) * 1000}
 			ops = append(ops, op{Kind: "advance", DtMs: sim.Pick(r, dts)})
+		case k == 18 && r.Chance(1, 2):
+			ops = append(ops, op{Kind: "rebuild"})
 		default:
 			ops = append(ops, op{Kind: "probe"})
 		}
@@ -534,7 +552,7 @@ func runSeq(idx int, args sim.Args, r *sim.Rand, q quotaSpec, ops []op, v *sim.V
 					return
 				}
 				for hid, m := range w.held {
-					if m.ticksAfter >= 3*q.loops() {
+					if m.ticksAfter >= 3*w.loops() {
 						v.Count("released:expiry", 1)
 						used["expiry"] = true
 						delete(w.held, hid)
@@ -542,6 +560,23 @@ func runSeq(idx int, args sim.Args, r *sim.Rand, q quotaSpec, ops []op, v *sim.V
 				}
 			case "probe":
 				w.probe()
+			case "rebuild":
+				// the engine is built once more from the same files and the result thrown away, as a flows
+				// validation (dry run) or a reload that fails after the build does; the engine in service
+				// keeps serving - its quotas must keep collecting abandoned transactions
+				gcD := time.Duration(q.GCS) * time.Second
+				before := w.clk.Armed(gcD)
+				if st, err := streams.NewStream(); err == nil {
+					_ = st.Initialize()
+				}
+				if !w.clk.WaitArmed(gcD, before+uint64(q.loops()), 20*time.Second) {
+					v.Inconclude(fmt.Sprintf("case %d: the collectors of the discarded engine did not start", idx))
+					w.dead = true
+					return
+				}
+				w.extraLoops += q.loops()
+				v.Count("discarded_engine_rebuilds", 1)
+				used["rebuild"] = true
 			}
 		})
 		if panicked {
@@ -555,6 +590,70 @@ func runSeq(idx int, args sim.Args, r *sim.Rand, q quotaSpec, ops []op, v *sim.V
 	if idx%211 == 0 {
 		v.Sample(w.rp("sequential history"))
 	}
+}
+
+// runFresh: simultaneous FIRST arrivals on quotas nobody has used yet (the member set of a quota is created
+// on first use: an interleaving that exists once per quota and engine build). One engine with K concurrent
+// quotas on K URLs; for each, N callers arrive at once and keep their slot until all verdicts are in.
+func runFresh(idx int, args sim.Args, r *sim.Rand, v *sim.Verdict, root string) {
+	v.Eval(1)
+	const K = 32
+	maxes := make([]int, K)
+	var qs, fl strings.Builder
+	qs.WriteString("quotas:\n")
+	flows := map[string]string{}
+	for i := 0; i < K; i++ {
+		maxes[i] = r.Range(1, 3)
+		fmt.Fprintf(&qs, "  - id: fq%d\n    filter:\n      url: a.com/p%d\n    strategy:\n      concurrent:\n        max_request_count: %d\n        request_expiration_sec: 60\n        gc_interval_sec: 30\n", i, i, maxes[i])
+		f := strings.Replace(flowYAMLBase(quotaSpec{LimiterOn: fmt.Sprintf("fq%d", i)}), "name: cflow", fmt.Sprintf("name: fresh%d", i), 1)
+		f = strings.Replace(f, "  url: a.com/*", fmt.Sprintf("  url: a.com/p%d", i), 1)
+		flows[fmt.Sprintf("f%d.yaml", i)] = f
+	}
+	_ = fl
+	clk := sim.NewVClock(t0)
+	sim.UseClock(clk)
+	env, err := sim.NewStreamEnv(root, sim.Config{Quotas: map[string]string{"q.yaml": qs.String()}, Flows: flows})
+	if err != nil {
+		v.Violate("C02/harness/config-rejected", err.Error(), replay{Case: idx, Seed: args.Seed, Note: "fresh-quota world"})
+		return
+	}
+	defer env.Cleanup()
+	for i := 0; i < K; i++ {
+		n := r.Range(maxes[i]+2, maxes[i]+10)
+		res := make([]bool, n)
+		var wg sync.WaitGroup
+		var ready atomic.Int64
+		gate := make(chan struct{})
+		for c := 0; c < n; c++ {
+			wg.Add(1)
+			go func(c int) {
+				defer wg.Done()
+				if ready.Add(1) == int64(n) {
+					close(gate)
+				}
+				<-gate
+				out := env.OnRequest(sim.Txn{ID: fmt.Sprintf("c%d-fresh%d-%d", idx, i, c), Method: "GET", URL: fmt.Sprintf("a.com/p%d", i), Headers: map[string]string{}})
+				res[c] = out.Err == nil && out.Early == nil
+			}(c)
+		}
+		wg.Wait()
+		held := 0
+		for _, a := range res {
+			if a {
+				held++
+			}
+		}
+		v.Count("first_use_stampedes", 1)
+		if held > maxes[i] {
+			v.Violate("C02/over-admission/simultaneous-first-arrivals-on-a-fresh-quota", fmt.Sprintf("%d simultaneous first arrivals on quota fq%d, %d admitted and still in flight, maximum %d", n, i, held, maxes[i]),
+				replay{Case: idx, Seed: args.Seed, Note: fmt.Sprintf("fresh-quota world, quota %d of %d, max %d, %d arrivals, %d admitted", i, K, maxes[i], n, held)})
+			return
+		}
+		if held < maxes[i] {
+			v.Count("first_use_stampedes_admitting_fewer_than_max", 1)
+		}
+	}
+	v.Distinct(fmt.Sprintf("fresh-world-%d", idx%8))
 }
 
 type semIn struct {
